@@ -1,5 +1,135 @@
-import Spec.Rev
-import Model.Rev.Heads
-/-! # C15 (theorems: work in progress) -/
+import Lemmas.Rev.Cycles
+/-!
+# C15 — a history with a cycle is always rejected, an acyclic one never
+
+About `Model.Rev.load` (mirror of `RevisionMap._revision_map` with `_detect_cycles` and, since
+the fix commit, `_revisions_in_cycles`).  A history is *well formed* when its revision ids are
+unique and every down-revision names a revision of the history; `loadPhase1` succeeding means
+the `Revision` objects could be built (no self-loop, legal ids), labels do not clash and every
+dependency name resolves.  "Links" are down-revisions plus dependencies as the code resolves
+them (`m.allDownOf`).
+-/
 namespace C15
+open Model.Rev Spec.Rev Lemmas.Rev
+
+/-- the links contain a directed cycle: a non-empty set of revisions each of which links to
+    another member of the set -/
+def HasCycle (succ : Id → List Id) (ids : List Id) : Prop :=
+  ∃ S : List Id, S ≠ [] ∧ ∀ x ∈ S, x ∈ ids ∧ ∃ p ∈ succ x, p ∈ S
+
+/-- acyclic: the links admit a rank function (equivalently, no directed cycle) -/
+def Acyclic (succ : Id → List Id) : Prop := ∃ rank : Id → Nat, ∀ i, ∀ p ∈ succ i, rank p < rank i
+
+/-- a ranked graph has no cycle (the easy half of the equivalence) -/
+theorem acyclic_no_cycle {succ : Id → List Id} {ids : List Id} (h : Acyclic succ) : ¬ HasCycle succ ids := by
+  rintro ⟨S, hne, hS⟩
+  obtain ⟨rank, hr⟩ := h
+  obtain ⟨x, hx, hmin⟩ := exists_min_rank rank S hne
+  obtain ⟨_, p, hp, hpS⟩ := hS x hx
+  have := hr x p hp
+  have := hmin p hpS
+  omega
+
+/-- **A cyclic history is never accepted by `_detect_cycles`.** -/
+theorem detect_rejects_cycle (m : LMap) (h : HasCycle m.allDownOf m.ids) : detectCycles m ≠ .ok () := by
+  obtain ⟨S, hne, hS⟩ := h
+  intro hok
+  obtain ⟨x, hx⟩ := List.exists_mem_of_ne_nil _ hne
+  have hrevs : m.revs ≠ [] := by
+    intro e
+    have := (hS x hx).1
+    simp [LMap.ids, e] at this
+  have hp := (detectCycles_ok hok hrevs).peel_all
+  have := peel_keeps_cycle m.allDownOf S (fun y hy => (hS y hy).2) m.ids.length m.ids (fun y hy => (hS y hy).1) x hx
+  rw [hp] at this; simp at this
+
+/-- **C15, "a cycle is always rejected".** Whatever loads has no cycle among its down-revision
+and dependency links; no well-formedness assumption is needed. -/
+theorem cyclic_rejected {h : Hist} {o : LoadOpts} {m : LMap} (hl : load h o = .ok m) :
+    ¬ HasCycle m.allDownOf m.ids := by
+  obtain ⟨m1, lk, h1, hrevs, hlk, hchk, hdc, hids, hdown, hall, hnext, hanext, hnorm, hnone⟩ := load_graph hl
+  intro hc
+  apply detect_rejects_cycle (withNorm o m1) _ hdc
+  have hk2 := withNorm_keeps o m1
+  have hids2 : (withNorm o m1).ids = m1.ids := ids_mapRevs m1 _ (fun r => (hk2 r).1)
+  have hall2 : ∀ i, (withNorm o m1).allDownOf i = m1.allDownOf i := allDownOf_mapRevs m1 _ hk2
+  obtain ⟨S, hne, hS⟩ := hc
+  refine ⟨S, hne, ?_⟩
+  intro x hx
+  obtain ⟨h1', p, hp, hpS⟩ := hS x hx
+  exact ⟨by rw [hids2, ← hids]; exact h1', p, by rw [hall2, ← hall]; exact hp, hpS⟩
+
+/-- **C15, "an acyclic history is never rejected".** If the revision objects can be built and
+the links are acyclic, `_detect_cycles` accepts: the only ways a well-formed acyclic history
+can fail to load are the non-cycle errors of phase 1. -/
+theorem acyclic_accepted {h : Hist} {m1 : LMap} (o : LoadOpts) (h1 : loadPhase1 h = .ok m1)
+    (hu : (h.map (·.id)).Nodup) (hd : ∀ r ∈ h, ∀ d ∈ r.down, d ∈ h.map (·.id))
+    (hac : Acyclic m1.allDownOf) : detectCycles (withNorm o m1) = .ok () := by
+  obtain ⟨rank, hr⟩ := hac
+  have G := graphFacts_of_phase1 o h1 hu hd
+  apply detect_ok_of_ranked G rank
+  intro i p hp
+  have e : (withNorm o m1).allDownOf i = m1.allDownOf i := allDownOf_mapRevs m1 _ (withNorm_keeps o m1) i
+  rw [e] at hp
+  exact hr i p hp
+
+/-- the same, as a statement about `load`: a well-formed acyclic history loads unless the
+    observed set order handed to the model is not an order (never the case for the real code) -/
+theorem acyclic_loads {h : Hist} {m1 : LMap} (o : LoadOpts) (h1 : loadPhase1 h = .ok m1)
+    (hu : (h.map (·.id)).Nodup) (hd : ∀ r ∈ h, ∀ d ∈ r.down, d ∈ h.map (·.id))
+    (hac : Acyclic m1.allDownOf) (hord : normOrderOk o m1 = true) :
+    ∃ m, load h o = .ok m := by
+  have := acyclic_accepted o h1 hu hd hac
+  refine ⟨addBranches (withNorm o m1), ?_⟩
+  unfold load
+  simp [h1, bind, Except.bind, hord, this, pure, Except.pure]
+
+/-- **Heads and bases of an accepted history are the graph-theoretic ones**: heads = revisions
+that are nobody's down-revision, real heads = revisions nobody links to, bases = revisions
+without down-revision, real bases = revisions without any link. -/
+theorem heads_bases {h : Hist} {o : LoadOpts} {m : LMap} (hl : load h o = .ok m)
+    (hu : (h.map (·.id)).Nodup) (hd : ∀ r ∈ h, ∀ d ∈ r.down, d ∈ h.map (·.id)) :
+    (∀ x, x ∈ m.heads ↔ x ∈ m.ids ∧ ∀ c ∈ m.ids, x ∉ m.downOf c) ∧
+    (∀ x, x ∈ m.realHeads ↔ x ∈ m.ids ∧ ∀ c ∈ m.ids, x ∉ m.allDownOf c) ∧
+    (∀ x, x ∈ m.bases ↔ x ∈ m.ids ∧ m.downOf x = []) ∧
+    (∀ x, x ∈ m.realBases ↔ x ∈ m.ids ∧ m.allDownOf x = []) := by
+  obtain ⟨m1, h1, hdc, hm⟩ := load_ok hl
+  have G := graphFacts_of_phase1 o h1 hu hd
+  obtain ⟨f3, hk3, hn3, hm3⟩ := addBranches_eq (withNorm o m1)
+  have hids : m.ids = (withNorm o m1).ids := by rw [hm, hm3]; exact ids_mapRevs _ _ (fun r => (hk3 r).1)
+  have hdown : ∀ i, m.downOf i = (withNorm o m1).downOf i := by
+    intro i; rw [hm, hm3]; exact downOf_mapRevs _ _ hk3 i
+  have hall : ∀ i, m.allDownOf i = (withNorm o m1).allDownOf i := by
+    intro i; rw [hm, hm3]; exact allDownOf_mapRevs _ _ hk3 i
+  have hH : m.heads = (withNorm o m1).heads := by rw [hm, hm3]
+  have hRH : m.realHeads = (withNorm o m1).realHeads := by rw [hm, hm3]
+  have hB : m.bases = (withNorm o m1).bases := by rw [hm, hm3]
+  have hRB : m.realBases = (withNorm o m1).realBases := by rw [hm, hm3]
+  refine ⟨?_, ?_, ?_, ?_⟩
+  · intro x; rw [hH, hids, G.heads_def x]; simp only [hdown]
+  · intro x; rw [hRH, hids, G.realHeads_def x]; simp only [hall]
+  · intro x; rw [hB, hids, G.bases_def x, hdown]
+  · intro x; rw [hRB, hids, G.realBases_def x, hall]
+
+/-- **Every traversal of an accepted history terminates with the full answer**: the closure
+loop never runs out of its fuel (it returns exactly the reachable set), and the topological sort
+never runs out of fuel (`C01.sort_total`, `C02.plan_of_set`). -/
+theorem closure_total (m : LMap) (targets : List Id) (x : Id) :
+    x ∈ m.ancestors targets ↔ ∃ t ∈ targets, Reach m.normDownOf t x :=
+  mem_ancestors_iff m targets x
+
+/-! ### non-vacuity and the repaired defect -/
+
+/-- the witness of the repaired defect F1 (`a <- (), b <- c, c <- d, d <- (a, c)`): reachable from
+    heads and bases, yet cyclic; rejected now -/
+def f1 : Hist := [⟨"a", [], [], []⟩, ⟨"b", ["c"], [], []⟩, ⟨"c", ["d"], [], []⟩, ⟨"d", ["a", "c"], [], []⟩]
+
+def isErr {α} (r : Except Err α) (e : Err) : Bool := match r with | .error e' => e' == e | .ok _ => false
+def isOk {α} (r : Except Err α) : Bool := match r with | .ok _ => true | .error _ => false
+
+example : isErr (load f1) .cycle = true := by decide +kernel
+example : isOk (load [⟨"a", [], [], []⟩, ⟨"b", ["a"], [], []⟩, ⟨"c", ["a"], ["b"], []⟩]) = true := by decide +kernel
+example : isErr (load [⟨"a", [], ["c"], []⟩, ⟨"b", ["a"], [], []⟩, ⟨"c", ["b"], [], []⟩]) .depCycle = true := by
+  decide +kernel
+
 end C15
